@@ -22,11 +22,17 @@ class St:
         return St(self.i, self.flt, self.fresh)
 
 class Peg:
-    def __init__(self, toks, complete):
+    def __init__(self, toks, complete, sink=False):
         self.toks = toks            # sequential unfiltered tokens (lexsim.scan_all)
         self.complete = complete    # True iff the scanner accepts the whole text
-        self.first_consumed = None
+        self.sink = sink            # is an error sink installed?
+        self.emitted = 0            # errors the reference expects in the sink so far
+        self.stale = set()          # recover_after objects whose recovery token ended the stream (known finding)
+        self.known = None
         self.last_consumed = None
+
+    def deliverable(self, s, lo, hi):
+        return [j for j in range(lo, hi) if lexsim.keeps(s.flt, self.toks[j]['kind'])]
 
     # ---- token stream helpers ----
     def norm(self, s):
@@ -159,6 +165,80 @@ class Peg:
             return v, s2
         if k in ('raw', 'unrec', 'ctxpush'):
             return self.ev(g[-1], s)
+        # ---- captures (C14): span / text of the tokens the wrapped parser consumed ----
+        if k in ('text', 'spanned'):
+            v, s1 = self.ev(g[1], s)
+            cons = self.deliverable(s, s.i, s1.i)
+            if cons:
+                a, b = self.toks[cons[0]]['start'], self.toks[cons[-1]]['end']
+                if k == 'text':
+                    return ['text', str(a[0]), str(b[0])], s1
+                return ['spanned', lexsim.fmt_pos(a) + '~' + lexsim.fmt_pos(b), v], s1
+            return [k, 'EMPTY', v], s1
+        # ---- brackets (C10): reference stack matcher over the deliverable stream ----
+        if k in ('bracket', 'bracketdef', 'bracketidx', 'bracketdefidx'):
+            os_, inner, cs, ab = g[1], g[2], g[3], g[4]
+            stack = []
+            first_open = None
+            res = None
+            for j in self.deliverable(s, s.i, len(self.toks)):
+                kd = self.toks[j]['kind']
+                if kd in cs:
+                    if not stack:
+                        raise Fail('bracket:unopened:%d' % j)
+                    if stack[-1][0] != cs.index(kd):
+                        raise Fail('bracket:mismatch:%d:%d' % (stack[-1][1], j))
+                    stack.pop()
+                    if not stack:
+                        res = (first_open, j, cs.index(kd)); break
+                elif kd in os_:
+                    stack.append((os_.index(kd), j))
+                    if first_open is None:
+                        first_open = j
+                elif kd in ab and first_open is None:
+                    raise Fail('bracket:none:%d' % j)
+            if res is None:
+                raise Fail('bracket:none:start' if first_open is None else 'bracket:unclosed:%d' % first_open)
+            o, c, idx = res
+            si = St(o + 1, s.flt, True); self.norm(si)
+            after = St(c + 1, s.flt, False)
+            try:
+                v, _ = self.ev(inner, si)
+                ok = True
+            except Fail:
+                if not self.sink:
+                    raise
+                self.emitted += 1
+                ok = False
+            if k == 'bracket': val = ['some', v] if ok else ['none']
+            elif k == 'bracketdef': val = v if ok else 'dflt'
+            elif k == 'bracketidx': val = ['pair', ['some', v] if ok else ['none'], ['nat', str(idx)]]
+            else: val = ['pair', v if ok else 'dflt', ['nat', str(idx)]]
+            return val, after
+        # ---- recovery (C12) ----
+        if k in ('recover', 'recoverdef', 'recoverdelayed', 'recoverdefdelayed'):
+            rs, a = g[1], g[2]
+            if id(g) in self.stale:
+                self.known = 'stale-after-flag'
+            try:
+                v, s1 = self.ev(a, s)
+                return (['some', v] if k in ('recover', 'recoverdelayed') else v), s1
+            except Fail:
+                if not self.sink:
+                    raise
+            self.emitted += 1
+            kinds = rs[1:]
+            for j in self.deliverable(s, s.i, len(self.toks)):
+                if self.toks[j]['kind'] in kinds:
+                    if rs[0] in ('before', 'beforeany'):
+                        return (['none'] if k in ('recover', 'recoverdelayed') else 'dflt'), St(j, s.flt, False)
+                    # after: the next token is the one following the recovery token; there must be one
+                    s2 = St(j + 1, s.flt, False)
+                    if self.first(s2) is None:
+                        self.stale.add(id(g))
+                        raise Fail('recover')
+                    return (['none'] if k in ('recover', 'recoverdelayed') else 'dflt'), s2
+            raise Fail('recover')
         # ---- repetition (C07): greedy single loop ----
         if k in ('repeat', 'repeatcount', 'intersperse', 'interspersecount', 'interspersedef',
                  'repeatuntil', 'repeatcountuntil', 'intersperseuntil', 'interspersecountuntil'):
@@ -213,17 +293,23 @@ class Peg:
         raise NotCovered('vpred')
 
 
-def reference(text, le, tab, scanner, flt, g):
-    """('ok', value, rest-tokens, flt_is_some) | ('fail',) | ('notcovered', why)"""
+def reference(text, le, tab, scanner, flt, g, sink=False, runs=1):
+    """list of per-run results: ('ok', value, rest-tokens, flt_is_some, emitted) | ('fail', why, emitted) |
+    ('notcovered', why); evaluation stops after the first failure"""
     toks = lexsim.scan_all(text, le, tab, scanner)
     complete = 'bang' not in text
-    p = Peg(toks, complete)
+    p = Peg(toks, complete, sink)
     s = St(0, flt, True)
     p.norm(s)
-    try:
-        v, s1 = p.ev(g, s)
-    except Fail:
-        return ('fail',)
-    except NotCovered as e:
-        return ('notcovered', str(e))
-    return ('ok', v, p.rest(s1), s1.flt is not None)
+    out = []
+    for _ in range(runs):
+        try:
+            v, s1 = p.ev(g, s)
+        except Fail as e:
+            out.append(('fail', e.why, p.emitted)); break
+        except NotCovered as e:
+            out.append(('notcovered', str(e))); break
+        out.append(('ok', v, p.rest(s1), s1.flt is not None, p.emitted))
+        s = s1
+    reference.known = p.known
+    return out
